@@ -33,32 +33,33 @@ const (
 
 // absMsg is a message of the specification's lattice (the union of all record shapes).
 type absMsg struct {
-	T      string `json:"t"`
-	Ch     string `json:"ch"`
-	Nilc   bool   `json:"nilc"`
-	H      int    `json:"h"`
-	R      int    `json:"r"`
-	Typ    int    `json:"typ"`
-	Who    int    `json:"who"`
-	VIdx   string `json:"vidx"`
-	VAddr  string `json:"vaddr"`
-	Size   int    `json:"size"`
-	Bid    string `json:"bid"`
-	Sig    string `json:"sig"`
-	PType  string `json:"ptype"`
-	Pol    int    `json:"pol"`
-	Total  int    `json:"total"`
-	Hash   string `json:"hash"`
-	PolBid string `json:"polbid"`
-	Idx    int    `json:"idx"`
-	Bytes  string `json:"bytes"`
-	Proof  string `json:"proof"`
-	Step   int    `json:"step"`
-	Secs   int    `json:"secs"`
-	Lcr    int    `json:"lcr"`
-	Hdr    string `json:"hdr"`
-	Ba     string `json:"ba"`
-	PolR   int    `json:"polr"`
+	T       string `json:"t"`
+	Ch      string `json:"ch"`
+	Nilc    bool   `json:"nilc"`
+	H       int    `json:"h"`
+	R       int    `json:"r"`
+	Typ     int    `json:"typ"`
+	Who     int    `json:"who"`
+	VIdx    string `json:"vidx"`
+	VAddr   string `json:"vaddr"`
+	Size    int    `json:"size"`
+	Bid     string `json:"bid"`
+	Sig     string `json:"sig"`
+	PType   string `json:"ptype"`
+	Pol     int    `json:"pol"`
+	Total   int    `json:"total"`
+	Hash    string `json:"hash"`
+	PolBid  string `json:"polbid"`
+	Idx     int    `json:"idx"`
+	Bytes   string `json:"bytes"`
+	Proof   string `json:"proof"`
+	Step    int    `json:"step"`
+	Secs    int    `json:"secs"`
+	Lcr     int    `json:"lcr"`
+	Hdr     string `json:"hdr"`
+	Ba      string `json:"ba"`
+	PolR    int    `json:"polr"`
+	Content string `json:"content"`
 }
 
 // act is the label of an exported edge.
@@ -86,13 +87,14 @@ type edge struct {
 	Act  act             `json:"act"`
 	To   projState       `json:"to"`
 	Run  bool            `json:"run"`
+	Cf   classFacts      `json:"cf"`
 	M    json.RawMessage `json:"-"` // the abstract message as exported (for records and keys)
 }
 
 // concrete is one instantiated message.
 type concrete struct {
-	ch    byte
-	bytes []byte
+	ch     byte
+	bytes  []byte
 	desc   string // the concrete values chosen for symbolic ones
 	rounds []int  // the vote's round (probed in the snapshot)
 }
@@ -103,7 +105,7 @@ var channelIDs = map[string]byte{"state": cs.StateChannel, "data": cs.DataChanne
 type inst struct {
 	b     *built
 	rng   *rand.Rand
-	fresh int // makes FAR / MAXI / NEG rounds distinct from every round used before
+	fresh int    // makes FAR / MAXI / NEG rounds distinct from every round used before
 	abs   [4]int // abstract validator -> node index: 0 target, 1 proposer of its (h, r), 2, 3 the others
 	h     uint64
 	r     int
@@ -394,7 +396,7 @@ func (in *inst) make(m absMsg) (c concrete, err error) {
 		switch m.Total {
 		case sNP:
 		case sMAXI:
-			hdr.Total = int(in.pick("total", 1<<20, 1<<16, 100000))
+			hdr.Total = int(in.pick("total", 1<<20, 1<<21, 1<<22)) // (2^31-1 and 2^40 are tried in the allocation phase)
 		default:
 			hdr.Total = in.num("total", m.Total)
 		}
